@@ -8,8 +8,14 @@ pid, which = sys.argv[1], sys.argv[2]
 props = pid
 if "--props" in sys.argv:
     props = sys.argv[sys.argv.index("--props") + 1]
-src = f"/tmp/seed/{pid}-out/{which}"
-dst = f"/verif/seeded/{pid}-{which}"
+base = "/tmp/seed"
+if "--src" in sys.argv:
+    base = sys.argv[sys.argv.index("--src") + 1]
+name = which
+if "--as" in sys.argv:
+    name = sys.argv[sys.argv.index("--as") + 1]
+src = f"{base}/{pid}-out/{which}"
+dst = f"/verif/seeded/{pid}-{name}"
 wt = f"/tmp/evalseed-{os.getpid()}"
 res = {}
 try:
